@@ -103,11 +103,17 @@ func C15(p *core.Program, r *core.Report) {
 				return "", false
 			},
 			Event: func(in ssa.Instruction, c *core.Canon) (string, bool) {
+				// the list may be built in a local and stored once, or stored after every append:
+				// a store of a list grown from the candidate list into the candidate list commits
+				// the additions made so far
+				if st, ok := in.(*ssa.Store); ok && strings.TrimPrefix(c.Of(st.Addr), "&") == cand && rootsAt(c, st.Val, cand, 0) {
+					return "commit", true
+				}
 				call, ok := in.(*ssa.Call)
 				if !ok {
 					return "", false
 				}
-				if b, ok := call.Call.Value.(*ssa.Builtin); !ok || b.Name() != "append" || c.Of(call.Call.Args[0]) != cand {
+				if b, ok := call.Call.Value.(*ssa.Builtin); !ok || b.Name() != "append" || !rootsAt(c, call.Call.Args[0], cand, 0) {
 					return "", false
 				}
 				el := c.Of(call.Call.Args[1])
@@ -140,6 +146,30 @@ func C15(p *core.Program, r *core.Report) {
 		// after the appends the list is non-empty: the `len > 0` test of ExtractTitle is decided by
 		// the same atom as `fresh`; paths that claim an empty list after an append are infeasible
 		var feasible []core.DecisionPath
+		for i := range paths {
+			// every addition must be committed to the extractor's list before the return
+			evs, out := pathEvents(paths[i]), paths[i].Outcome
+			if k := strings.LastIndex(out, "=> "); k >= 0 {
+				out = out[k+3:]
+			}
+			var adds []string
+			pending := false
+			for _, e := range evs {
+				if e == "commit" {
+					pending = false
+					continue
+				}
+				adds = append(adds, e)
+				pending = true
+			}
+			if pending {
+				adds = append(adds, "addition never stored into the candidate list")
+			}
+			if len(adds) > 0 {
+				out = strings.Join(adds, "; ") + " => " + out
+			}
+			paths[i].Outcome = out
+		}
 		for _, pa := range paths {
 			if strings.Contains(pa.Outcome, "add ") && pa.Outcome[strings.LastIndex(pa.Outcome, "=> ")+3:] == `return ""` {
 				continue
@@ -351,4 +381,33 @@ func appendedElem(c *ssa.Call) ssa.Value {
 		return out
 	}
 	return nil
+}
+
+// rootsAt reports whether a slice value is the place `root` (canonical form of a load) possibly
+// grown by appends and merged by phis: every leaf of the append/phi chain is a load of root.
+func rootsAt(c *core.Canon, v ssa.Value, root string, depth int) bool {
+	if depth > 8 {
+		return false
+	}
+	v = core.StripConv(v)
+	if c.Of(v) == root {
+		return true
+	}
+	switch x := v.(type) {
+	case *ssa.Phi:
+		for _, e := range x.Edges {
+			if e == ssa.Value(x) {
+				continue
+			}
+			if !rootsAt(c, e, root, depth+1) {
+				return false
+			}
+		}
+		return len(x.Edges) > 0
+	case *ssa.Call:
+		if b, ok := x.Call.Value.(*ssa.Builtin); ok && b.Name() == "append" {
+			return rootsAt(c, x.Call.Args[0], root, depth+1)
+		}
+	}
+	return false
 }
